@@ -118,7 +118,26 @@ Definition ex_w : wrapper :=
   {| w_name := "EQ_f"; w_kind := "method"; w_call := "method"; w_this := "self";
      w_params := [("a", {| k_group := "native"; k_ptrs := "&"; k_intent := "inout" |}); ("e", {| k_group := "enum"; k_ptrs := ""; k_intent := "in" |});
                   ("s", {| k_group := "string"; k_ptrs := "&"; k_intent := "in" |}); ("t", {| k_group := "shadow"; k_ptrs := "&"; k_intent := "in" |})];
-     w_args := [(Deref, "a"); (Cast, "e"); (StringFrom, "s"); (DerefShadow, "t")]; w_copyouts := []; w_unknown := 0 |}.
+     w_args := [(Deref, "a"); (Cast, "e"); (StringFrom, "s"); (DerefShadow, "t")]; w_copyouts := []; w_unknown := 0;
+     w_rkind := {| k_group := "enum"; k_ptrs := ""; k_intent := "result" |}; w_result := RCastBack; w_buf := false |}.
+
+(* what the C caller gets for a callee result *)
+Definition rsem (r : rconv) (x : cxxval) : cval :=
+  match r, x with
+  | RDirect, XNum z => CNum z
+  | RDirect, XCPtr a => CPtr a
+  | RDirect, XStr s => CStr s
+  | RCastBack, XEnum z => CNum z
+  | RCStr, XStr s => CStr s
+  | RShadow, XObjPtr id => CCapsule id
+  | _, _ => CNone
+  end.
+
+(* the conversions back are the inverses of the conversions in: a value returned and passed again arrives unchanged *)
+Theorem result_round_trip : forall z s id,
+  sem Cast (rsem RCastBack (XEnum z)) = XEnum z /\ sem StringFrom (rsem RCStr (XStr s)) = XStr s /\
+  sem ShadowAddr (rsem RShadow (XObjPtr id)) = XObjPtr id /\ sem Direct (rsem RDirect (XNum z)) = XNum z.
+Proof. intros; repeat split; reflexivity. Qed.
 Example ex_w_delivers :
   wrapper_ok ex_w = true /\
   received ex_w (caller_env (w_params ex_w) [XNum 7; XEnum 5; XStr [104%N; 105%N]; XObj 3]) = [XNum 7; XEnum 5; XStr [104%N; 105%N]; XObj 3].
